@@ -168,6 +168,18 @@ def gen_reuse(rng):
             rng.choice([3, 8]), Qs([span]), len(seq), " ".join(fmt_pomdp(x) for x in seq), Qs(b0), bstr)
 
 
+def gen_resume(rng):
+    """PBVI solved h1 steps, then resumed for h2 more from the returned ValueFunction (negative / mixed rewards)"""
+    m = _pomdp(rng, small=True)
+    if rng.random() < 0.5:
+        top = max(max(row) for row in m["R"]); m["R"] = [[x - top - rng.choice([1, 10]) for x in row] for row in m["R"]]
+    ao = m["A"] * m["O"]
+    hmax = 5 if ao <= 4 else (4 if ao <= 6 else 3)
+    h1 = rng.randint(1, hmax - 1); h2 = rng.randint(1, hmax - h1)
+    bstr, _ = _beliefs(rng, m["S"], 5)
+    return "resume %d %d %s %s" % (h1, h2, fmt_pomdp(m), bstr)
+
+
 def gen_perseus_d1(rng):
     m = _pomdp(rng); m["g"] = F(1)
     return "perseus_d1 %s" % fmt_pomdp(m)
@@ -206,6 +218,7 @@ def gen(rng, tier):
         elif r < 0.92: out.append(gen_anytime(rng, "gapmin"))
         elif r < 0.94: out.append(gen_switch(rng, "gapmin"))
         elif r < 0.947: out.append(gen_perseus_d1(rng))
-        elif r < 0.985: out.append(gen_reuse(rng))
+        elif r < 0.975: out.append(gen_reuse(rng))
+        elif r < 0.99: out.append(gen_resume(rng))
         else: out.append(gen_cleanup(rng))
     return out
